@@ -161,7 +161,9 @@ def node_facts(root):
         facts.append([type(a).__name__, getattr(a, "lineno", 0), getattr(a, "col_offset", 0),
                       "restriction" if isinstance(r, SyntaxRestriction) else ("ancestor" if isinstance(r, RuleInAncestor) else None),
                       None if t is None else ("inparent" if isinstance(t, TypeInParent) else show_type(t)),
-                      isinstance(t, TypeErrorRoot)])
+                      isinstance(t, TypeErrorRoot),
+                      # how many operators the node is written with: each one is shown with the node's type
+                      (len(a.values) - 1) if isinstance(a, ast.BoolOp) else 1])
     return facts
 
 
